@@ -42,7 +42,15 @@ def run(ctx):
     K = 10 if ctx.thorough() else 8
     t = ctx.path("posmap.ndjson")
     vlib.kvh(["table", "posmap", K], out=t)
-    r = vlib.tlc("PosMap", cfg="PosMapAll", env={"VK": K, "VIMPL": t}, rundir=ctx.rundir, coverage=True, workers=8, timeout=3000)
+    # the Python binding's header for every k <= K rides along (names tied to ranks by the same scan)
+    pyd = vlib.build_py()
+    ht = ctx.path("py_headertable.ndjson")
+    with open(ht, "wb") as f:
+        p = vlib.sh([sys.executable, os.path.join(vlib.ROOT, "py", "driver.py"), pyd, "headertable", str(K)], stdout=f, timeout=600)
+    if p.returncode != 0:
+        ctx.violation("python_header", {"exit": p.returncode}, {"stderr": p.stderr.decode(errors="replace")[-1500:]})
+        return
+    r = vlib.tlc("PosMap", cfg="PosMapAll", env={"VK": K, "VIMPL": t, "VHDR": ht}, rundir=ctx.rundir, coverage=True, workers=8, timeout=3000)
     ctx.add_mc("mc+table posmap k<=%d" % K, r)
     ctx.evaluations += r.distinct
     ctx.nontrivial += r.distinct
